@@ -25,12 +25,8 @@ import threading
 from concurrent.futures import ThreadPoolExecutor
 
 from vlib import core
-from vlib import tlc as tlcmod
 
 LEVEL = "model_checking"
-
-W = int(os.environ.get("VERIF_TLC_WORKERS") or 8)
-W = max(1, min(W, 8))
 
 
 # ----------------------------------------------------------------------------- trace validation
